@@ -359,10 +359,11 @@ func (s *sched) decide() *thread {
 		} else if o.cap > 0 {
 			t.recvInt, t.recvStr, t.recvAny = o.ibuf[0], o.sbuf[0], o.abuf[0]
 			t.partner = o.senders[0]
-			copy(o.ibuf[:], o.ibuf[1:o.n])
-			copy(o.sbuf[:], o.sbuf[1:o.n])
-			copy(o.abuf[:], o.abuf[1:o.n])
-			copy(o.senders[:], o.senders[1:o.n])
+			// element-wise on purpose: copy() goes through runtime.slicecopy, which reports to the race detector even
+			// from a go:norace function, and the scheduler's own buffers would show up as races of the program
+			for q := 1; q < o.n; q++ {
+				o.ibuf[q-1], o.sbuf[q-1], o.abuf[q-1], o.senders[q-1] = o.ibuf[q], o.sbuf[q], o.abuf[q], o.senders[q]
+			}
 			o.n--
 		} else {
 			u := s.threads[c.S]
@@ -691,6 +692,25 @@ func (c *Chan[T]) Close() {
 	raceReleaseMerge(unsafe.Pointer(&c.o.sync1))
 	s.point(me, OpClose, c.o)
 }
+
+// Len and Cap are len(ch) and cap(ch): the number of buffered values and the buffer size (no scheduling point: like
+// the built-ins they only look at the channel).
+func (c *Chan[T]) Len() int {
+	if c.real != nil {
+		return len(c.real)
+	}
+	return active.chanLen(c.o)
+}
+
+func (c *Chan[T]) Cap() int {
+	if c.real != nil {
+		return cap(c.real)
+	}
+	return active.chanCap(c.o)
+}
+
+//go:norace
+func (s *sched) chanLen(o *object) int { return o.n }
 
 //go:norace
 func (s *sched) isClosed(o *object) bool { return o.closed }
